@@ -137,6 +137,31 @@ func AuditStoredStates(c *vh.Case, t *chainx.Tree, nd *chainx.Node, tainted bool
 	}
 }
 
+// FullOp asks the model which of the stored states are complete post-block states (Model/ChainF)
+// and answers for the implementation: the stored state of a block is complete iff it has the
+// element-accumulator size of the block's own linear replay (a header-level state carries the
+// accumulator of an ancestor, which is strictly smaller: every block creates at least its miner
+// payout).
+func FullOp(t *chainx.Tree, nd *chainx.Node) (op, out string) {
+	var ask, full strings.Builder
+	ask.WriteString("full")
+	full.WriteString("full")
+	for _, b := range t.Blocks[1:] {
+		if !b.HdrOk || b.Parent == chainx.OrphanParent {
+			continue
+		}
+		st, ok := nd.CM.State(b.Block.ID())
+		if !ok {
+			continue
+		}
+		fmt.Fprintf(&ask, " %d", b.ID)
+		if b.Full.Index.ID == b.Block.ID() && st.Elements.NumLeaves == b.Full.Elements.NumLeaves {
+			fmt.Fprintf(&full, " %d", b.ID)
+		}
+	}
+	return ask.String(), strings.TrimRight(full.String(), " ")
+}
+
 // Submit calls AddBlocks, recovering a panic.
 func Submit(nd *chainx.Node, blocks []types.Block) (res string) {
 	defer func() {
@@ -361,6 +386,9 @@ func RunTreeModes(r *vh.Run, name string, t *chainx.Tree, sched [][]int, modes [
 		}
 		Audit(c, t, nd, res, before, beforeState, beforeTip, beforeN, tainted)
 		AuditStoredStates(c, t, nd, tainted)
+		if len(t.Blocks) <= 300 {
+			c.Op(FullOp(t, nd))
+		}
 		if afterTip != beforeTip {
 			// a reorg proper = the old tip is not an ancestor of the new one
 			anc := false
